@@ -12,6 +12,7 @@ import numpy as np
 from rv import core, zoo, monitors
 
 LEVEL = 'exploration'
+LEVEL_TEXT = 'Contract on the real to_rfi evaluated on every call (direct, repository tests): the law is recomputed from settings the oracle derives itself from the keywords/overrides; batch == sequential == by-name == by-position exactly; inconsistent lengths must raise. Exploration with an exhaustive subset/order block.'
 TECHNIQUE = 'runtime contract on to_rfi with keyword-derived law oracle + call-history equivalence checker'
 RULE = ('generated integer/float samples and plain arrays x channel subsets/orderings (exhaustive for <=4 channels in '
         'the subset block) x name/position/mixed spelling x per-setting override-vs-file; non-trivial = at least one '
